@@ -53,6 +53,9 @@ def run(ck: Check, only=None):
                 if idx == 4000:
                     ck.sample({"atom": atom, "data": data.hex(), "impl": line})
     reload_same_object(ck)
+    from scale import big_dump_identity, big_load_identity
+    big_dump_identity(ck)
+    big_load_identity(ck)
     model = run_model(cases, shards=16)
     from coqlit import xcheck
     xcheck(ck, cases, model)
